@@ -101,6 +101,7 @@ type hGen struct {
 	broad           bool  // selectors are mostly empty, so policies really select the pods
 	weights         []int // per-history mix of mutation kinds
 	exprs           bool  // selectors are mostly matchExpressions (Exists / DoesNotExist / In / NotIn)
+	variants        bool  // pods of one owner often carry label sets that are easy to confuse with each other
 	anpN            int   // number of ANP names in play
 	adminPre        int   // admin profile: ANPs inserted up front
 	owned           bool  // every pod has a controller (so every verdict is cacheable)
@@ -164,8 +165,12 @@ func (g *hGen) mkPod(ns, name string) *corev1.Pod {
 	var ports []corev1.ContainerPort
 	if owner != "" {
 		k := ns + "/" + owner
-		if l, ok := g.ownerLb[k]; ok && !r.chance(1, 6) {
+		if l, ok := g.ownerLb[k]; ok && !r.chance(1, 6) && !(g.variants && r.chance(1, 2)) {
 			labels = l
+		} else if ok && len(l) > 0 && (g.variants || r.chance(1, 3)) {
+			// a sibling with a label set that is easy to confuse with the owner's usual one: the same keys
+			// with the values moved around, one key dropped, or one value changed
+			labels = confusable(r, l)
 		} else {
 			g.ownerLb[k] = labels
 		}
@@ -200,6 +205,32 @@ func ownerPorts(ownerKey string, labels map[string]string, epoch int) []corev1.C
 		ports = append(ports, corev1.ContainerPort{Name: "dns", ContainerPort: 53, Protocol: corev1.ProtocolUDP})
 	}
 	return ports
+}
+
+// confusable derives a label set that a sloppy key (hash, string join) could mistake for l.
+func confusable(r *rng, l map[string]string) map[string]string {
+	keys := sortedKeys(l)
+	out := map[string]string{}
+	for k, v := range l {
+		out[k] = v
+	}
+	switch k := r.intn(4); {
+	case k <= 1 && len(keys) >= 2:
+		// rotate the values over the keys
+		for i, key := range keys {
+			out[key] = l[keys[(i+1)%len(keys)]]
+		}
+	case k == 2 && len(keys) >= 2:
+		delete(out, pick(r, keys))
+	default:
+		key := pick(r, keys)
+		for _, v := range podVals {
+			if v != l[key] {
+				out[key] = v
+			}
+		}
+	}
+	return out
 }
 
 func (g *hGen) mkNetpol(ns, name string) *netv1.NetworkPolicy {
@@ -628,6 +659,7 @@ func genHistory(r *rng, n int) *history {
 	for _, b := range base {
 		g.weights = append(g.weights, b*pick(r, []int{0, 1, 1, 3}))
 	}
+	g.variants = r.chance(1, 4)
 	g.weights[0] += 2 // a history always has pods
 	g.weights[2]++    // and namespaces
 	g.qports = hPorts
